@@ -267,28 +267,27 @@ def drive_gex(mp, old, req, r):
     try:
         with Pinned(r):
             k.parse_next(30 if old else 34, m)
-    except SSHException:
-        return (k.min_bits, k.preferred_bits, k.max_bits), None, "SSHException", t.sent
+    except Exception as x:      # noqa - anything but an offered group is "no offer"
+        return (k.min_bits, k.preferred_bits, k.max_bits), None, type(x).__name__, t.sent
     return (k.min_bits, k.preferred_bits, k.max_bits), (k.g, k.p), None, t.sent
 
 
 # ---------------------------------------------------------------- checks on one case
-def check_direct(ctx, tmpdir, content, req, r):
-    """Run the real ModulusPack; apply the oracle; return the canonical output."""
-    from paramiko.ssh_exception import SSHException
-    mp = load_pack(tmpdir, content)
+def write_file(tmpdir, content):
+    path = os.path.join(tmpdir, "moduli")
+    with open(path, "w", newline="") as f:
+        f.write(content)
+    return path
+
+
+def judge_direct(ctx, case, mp, content, req, e, exc=None, keyprefix=""):
+    """The property on one get_modulus result e (None = it raised) for the file `content` last loaded into mp."""
     accepted = [x for x in (ref_parse(t) for t in split_lines(content)) if x is not None]
     sizes = sorted({a[0] for a in accepted})
-    case = {"path": "direct", "content": content, "req": list(req), "r": r}
-    try:
-        with Pinned(r):
-            e = mp.get_modulus(*req)
-    except SSHException:
-        e = None
     held = sorted((k, g, p) for k, v in mp.pack.items() for g, p in v)
     if held != sorted(accepted):
         missing = [a for a in accepted if a not in held]
-        ctx.fail("acceptance-line-lost" if missing else "acceptance",
+        ctx.fail(keyprefix + ("acceptance-line-lost" if missing else "acceptance"),
                  "the pack does not hold exactly the lines of the file meeting the primality-test / bit-length "
                  "requirements (%d acceptable line(s) missing, %d unacceptable stored)"
                  % (len(missing), len([h for h in held if h not in accepted])),
@@ -296,30 +295,124 @@ def check_direct(ctx, tmpdir, content, req, r):
                  observed=[[a[0], a[1], a[2] % 2 ** 64] for a in held])
     if e is None:
         if accepted:
-            ctx.fail("no-offer", "get_modulus raised although the file has an acceptable group", case=case)
-        return [1] + [-1] + dump_pack(mp), sizes
+            ctx.fail(keyprefix + "no-offer", "get_modulus raised although the file has an acceptable group",
+                     case=case, observed=exc)
+        return [1 if exc in (None, "SSHException") else 98] + [-1] + dump_pack(mp), sizes
     if (e[1].bit_length(), e[0], e[1]) not in accepted:
-        ctx.fail("rejected-line-offered", "get_modulus returned a group that is not an accepted line of the file",
-                 case=case, observed=canon_entry(e))
+        ctx.fail(keyprefix + "rejected-line-offered", "get_modulus returned a group that is not an accepted line "
+                 "of the file", case=case, observed=canon_entry(e))
     want = ref_size(sizes, *req)
     got = e[1].bit_length()
     if want is not None and got != want:
         key = "first-scan-ignores-min" if req[0] > req[1] and got < req[0] else "size-selection"
-        ctx.fail(key, "an in-range size exists but get_modulus served size %d instead of %d" % (got, want),
+        ctx.fail(keyprefix + key, "an in-range size exists but get_modulus served size %d instead of %d" % (got, want),
                  case=case, expected=want, observed=got)
     return [0] + canon_entry(e) + [-1] + dump_pack(mp), sizes
 
 
-def check_gex(ctx, tmpdir, content, old, req, r, limits):
-    mp = load_pack(tmpdir, content)
+def call_get(mp, req, r):
+    try:
+        with Pinned(r):
+            return mp.get_modulus(*req), None
+    except Exception as x:      # noqa - anything but a returned group is "no offer"
+        return None, type(x).__name__
+
+
+def interleave(callA, callB, rA, rB):
+    """Deterministic two-thread schedule: the calling thread runs callA(); when it reaches
+    primes._roll_random (after its size selection, before its pick) it waits while a second thread runs the
+    whole of callB(); then it continues.  Returns (resultA, resultB, B_ran_inside)."""
+    import threading
+    import paramiko.primes as P
+    old = P._roll_random
+    me = threading.current_thread()
+    st = {"switched": False, "tb": None, "B": (None, "not-run")}
+
+    def run_b():
+        try:
+            st["B"] = (callB(), None)
+        except Exception as x:      # noqa
+            st["B"] = (None, type(x).__name__)
+
+    def roll(n):
+        if threading.current_thread() is me:
+            if not st["switched"]:
+                st["switched"] = True
+                st["tb"] = threading.Thread(target=run_b, daemon=True)
+                st["tb"].start()
+                st["tb"].join(5.0)
+                st["inside"] = not st["tb"].is_alive()
+            return rA % n
+        return rB % n
+
+    P._roll_random = roll
+    try:
+        try:
+            resA = (callA(), None)
+        except Exception as x:      # noqa
+            resA = (None, type(x).__name__)
+        if st["tb"] is None:
+            run_b()                 # A never reached the switch point: plain sequence
+        else:
+            st["tb"].join(10.0)
+    finally:
+        P._roll_random = old
+    return resA, st["B"], st.get("inside", False)
+
+
+def run_pack_session(ctx, tmpdir, session, inter=None):
+    """session: [(content, [(req, r), ...]), ...] executed on ONE ModulusPack (read_file, then the gets);
+    inter = (reqA, rA, reqB, rB): finally two overlapping get_modulus calls on the same pack.
+    Returns [(content, req, r, canonical output, sizes)] for every get."""
+    from paramiko.primes import ModulusPack
+    mp = ModulusPack()
+    hist, results = [], []
+    content = ""
+    for content, gets in session:
+        mp.read_file(write_file(tmpdir, content))
+        hist.append([content, []])
+        for req, r in gets:
+            hist[-1][1].append([list(req), r])
+            case = {"path": "direct", "session": [[c, [list(g) for g in gs]] for c, gs in hist]}
+            if len(hist) > 1 or len(hist[-1][1]) > 1:
+                case["note"] = "same ModulusPack object: file %d, get_modulus call %d on it" % (len(hist), len(hist[-1][1]))
+            e, exc = call_get(mp, req, r)
+            out, sizes = judge_direct(ctx, case, mp, content, req, e, exc)
+            results.append((content, req, r, out, sizes))
+    if inter is not None:
+        reqA, rA, reqB, rB = inter
+        case = {"path": "direct", "session": [[c, [list(g) for g in gs]] for c, gs in hist],
+                "interleave": [list(reqA), rA, list(reqB), rB],
+                "note": "two overlapping get_modulus calls on the shared pack: A selects, B runs completely, A picks"}
+        (eA, xA), (eB, xB), _inside = interleave(lambda: mp.get_modulus(*reqA), lambda: mp.get_modulus(*reqB), rA, rB)
+        outA, sizes = judge_direct(ctx, case, mp, content, reqA, eA, xA, keyprefix="interleaved-")
+        outB, _ = judge_direct(ctx, case, mp, content, reqB, eB, xB, keyprefix="interleaved-")
+        results.append((content, reqA, rA, outA, sizes))
+        results.append((content, reqB, rB, outB, sizes))
+    return results
+
+
+def check_direct(ctx, tmpdir, content, req, r):
+    """One file, one request, fresh pack."""
+    res = run_pack_session(ctx, tmpdir, [(content, [(req, r)])])[0]
+    return res[3], res[4]
+
+
+def check_gex(ctx, tmpdir, content, old, req, r, limits, mp=None, history=None):
+    """mp given: the server's (shared) pack object, already used by the requests in `history`."""
+    if mp is None:
+        mp = load_pack(tmpdir, content)
     accepted = [x for x in (ref_parse(t) for t in split_lines(content)) if x is not None]
     sizes = sorted({a[0] for a in accepted})
     case = {"path": "gex-old" if old else "gex", "content": content, "req": list(req), "r": r}
+    if history:
+        case["history"] = [[bool(o), list(q), rr] for o, q, rr in history]
+        case["note"] = "key exchange number %d served from the same ModulusPack object" % (len(history) + 1)
     norm, e, exc, sent = drive_gex(mp, old, req, r)
     if e is None:
         if accepted:
             ctx.fail("no-offer", "KexGex raised although the file has an acceptable group", case=case, observed=exc)
-        return list(norm) + [1]
+        return list(norm) + [1 if exc == "SSHException" else 98]
     from paramiko.message import Message
     ok = False
     if len(sent) == 1:
@@ -340,6 +433,43 @@ def check_gex(ctx, tmpdir, content, old, req, r, limits):
                      "instead of %d" % (e[1].bit_length(), want), case=case, expected=want,
                      observed=e[1].bit_length())
     return list(norm) + [0] + canon_entry(e)
+
+
+def check_gex_interleaved(ctx, tmpdir, content, reqA, rA, reqB, rB, limits):
+    """Two server-side key exchanges (two transports, two KexGex objects) sharing ONE ModulusPack, overlapping
+    as in `interleave`.  reqA / reqB are consistent requests within the server's limits."""
+    from paramiko.kex_gex import KexGex
+    from paramiko.message import Message
+    mp = load_pack(tmpdir, content)
+    accepted = [x for x in (ref_parse(t) for t in split_lines(content)) if x is not None]
+    sizes = sorted({a[0] for a in accepted})
+
+    def mk(req):
+        k = KexGex(StubTransport(mp))
+        m = Message()
+        for v in req:
+            m.add_int(v)
+        m.rewind()
+        return k, (lambda: k.parse_next(34, m))
+
+    kA, cA = mk(reqA)
+    kB, cB = mk(reqB)
+    (_a, xA), (_b, xB), _inside = interleave(cA, cB, rA, rB)
+    case = {"path": "gex-interleaved", "content": content, "reqA": list(reqA), "rA": rA, "reqB": list(reqB), "rB": rB,
+            "note": "two overlapping key exchanges served from one shared ModulusPack"}
+    for who, k, req, x in (("A", kA, reqA, xA), ("B", kB, reqB, xB)):
+        if x is not None or k.p is None:
+            if accepted:
+                ctx.fail("interleaved-no-offer", "key exchange %s raised although the file has an acceptable group" % who,
+                         case=case, observed=x)
+            continue
+        if (k.p.bit_length(), k.g, k.p) not in accepted:
+            ctx.fail("interleaved-rejected-line-offered", "key exchange %s was offered a group that is not an accepted "
+                     "line of the file" % who, case=case, observed=canon_entry((k.g, k.p)))
+        want = ref_size(sizes, *req)
+        if want is not None and k.p.bit_length() != want:
+            ctx.fail("interleaved-gex-consistent-request", "key exchange %s (consistent request) was served size %d "
+                     "instead of %d" % (who, k.p.bit_length(), want), case=case, expected=want, observed=k.p.bit_length())
 
 
 def model_of_text(piece):
@@ -386,7 +516,10 @@ def run(ctx):
                 "with and without a final newline, blank/comment lines at the end (valid lines, each "
                 "rejection reason, malformed text, random fields) at toy bit sizes 1..70 and at real sizes "
                 "512..10000; requests near the sizes present: consistent, inverted, prefer<min, prefer>max, "
-                "arbitrary; direct ModulusPack.get_modulus and KexGex new/old style requests (u32 fields). "
+                "arbitrary; direct ModulusPack.get_modulus and KexGex new/old style requests (u32 fields); every "
+                "pack object is driven through sessions (1..3 files loaded one after the other, 1..3 requests "
+                "each; 1..3 key exchanges per pack) and through a deterministic two-thread overlap (A selects, B "
+                "runs completely at A's _roll_random, A picks) directly and via two KexGex objects sharing a pack. "
                 "A case is non-trivial when distinct and the file has at least one accepted line")
     ctx.trusted += ["model coq/Model/C43.v is hand-written; tied to paramiko/primes.py and kex_gex.py by this "
                     "differential run (vm_compute of the model's own definitions)",
@@ -410,27 +543,50 @@ def run(ctx):
         check_gex(ctx, tmpdir, "\r\n".join(w), False, (1024, 4096, 8192), 0, limits)
         ctx.count(("witness-no-final-newline",), kind="direct-witness")
 
-        # ---- 1. direct ModulusPack --------------------------------------------
+        # two files loaded one after the other into ONE pack; two overlapping requests on a shared pack
+        f2 = "0 2 6 100 3071 2 %x\n" % (2 ** 3071 + 9)
+        run_pack_session(ctx, tmpdir, [("\n".join(w) + "\n", [((1024, 2048, 8192), 0)]), (f2, [((1024, 3072, 8192), 0)]),
+                                       ("\n".join(w) + "\n", [((1024, 4096, 8192), 0)])],
+                         inter=((1024, 2048, 8192), 0, (1024, 4096, 8192), 0))
+        check_gex_interleaved(ctx, tmpdir, "\n".join(w) + "\n", (1024, 2048, 8192), 0, (1024, 4096, 8192), 0, limits)
+        ctx.count(("witness-session",), kind="direct-witness")
+
+        # ---- 1. direct ModulusPack: sessions on one pack object (1..3 files, 1..3 requests each, then
+        #         sometimes two overlapping requests) ----------------------------------------------
         cases = []
-        for _ in range(300 * scale):
+        target = 300 * scale
+        while len(cases) < target:
             real = rng.random() < 0.3
-            lines = gen_file(rng, real)
-            texts = [t for t, _, _ in lines]
-            content = layout_file(rng, texts)
-            sizes0 = sorted({a[0] for a in (ref_parse(t) for t in texts) if a})
-            req = gen_request(rng, sizes0, real, u32=False)
-            if sizes0 and rng.random() < 0.3:          # make the last accepted line the only right answer
-                last = [a for a in (ref_parse(t) for t in texts) if a][-1][0]
-                req = (rng.choice([0, last - 1, last]), last, rng.choice([last, last + 1, 2 ** 20]))
-            r = rng.randrange(0, 50)
-            out, sizes = check_direct(ctx, tmpdir, content, req, r)
-            cases.append((lines, req, r, out, content))
-            ctx.dist[ending_kind(content)] = ctx.dist.get(ending_kind(content), 0) + 1
-            shape = ("consistent" if req[0] <= req[1] <= req[2] else "inverted" if req[0] > req[2]
-                     else "pref<min" if req[1] < req[0] else "pref>max")
-            ctx.count(("direct", texts, req, r), nontrivial=bool(sizes), kind="direct-" + shape)
-            for _, _, k in lines:
-                ctx.dist["line-" + k] = ctx.dist.get("line-" + k, 0) + 1
+            session, lines_of = [], {}
+            for _f in range(rng.choice([1, 1, 2, 3])):
+                lines = gen_file(rng, real)
+                texts = [t for t, _, _ in lines]
+                content = layout_file(rng, texts)
+                lines_of[content] = lines_of.get(content, []) + lines
+                sizes0 = sorted({a[0] for a in (ref_parse(t) for t in texts) if a})
+                gets = []
+                for _g in range(rng.choice([1, 1, 2, 3])):
+                    req = gen_request(rng, sizes0, real, u32=False)
+                    if sizes0 and rng.random() < 0.3:      # make the last accepted line the only right answer
+                        last = [a for a in (ref_parse(t) for t in texts) if a][-1][0]
+                        req = (rng.choice([0, last - 1, last]), last, rng.choice([last, last + 1, 2 ** 20]))
+                    gets.append((req, rng.randrange(0, 50)))
+                session.append((content, gets))
+                ctx.dist[ending_kind(content)] = ctx.dist.get(ending_kind(content), 0) + 1
+                for _, _, k in lines:
+                    ctx.dist["line-" + k] = ctx.dist.get("line-" + k, 0) + 1
+            inter = None
+            if len(sizes0) >= 2 and rng.random() < 0.5:
+                sa, sb = rng.sample(sizes0, 2)
+                inter = ((0, sa, sa), rng.randrange(50), (0, sb, sb), rng.randrange(50))
+            res = run_pack_session(ctx, tmpdir, session, inter=inter)
+            ngets = sum(len(g) for _c, g in session)
+            for i, (content, req, r, out, sizes) in enumerate(res):
+                cases.append((lines_of[content], req, r, out, content))
+                shape = ("consistent" if req[0] <= req[1] <= req[2] else "inverted" if req[0] > req[2]
+                         else "pref<min" if req[1] < req[0] else "pref>max")
+                kind = "direct-interleaved" if i >= ngets else ("direct-" + shape + ("" if i == 0 else "-reused-pack"))
+                ctx.count(("direct", content, req, r, i), nontrivial=bool(sizes), kind=kind)
         bad = guarded_model(
             ctx, "run_get", "(list fline * (Z * Z * Z) * Z)",
             [("(%s, %s, %s)" % (model_lines(l, c), coq(tuple(req)), coq(r)), out) for l, req, r, out, c in cases])
@@ -441,22 +597,34 @@ def run(ctx):
         ctx.sample({"direct": {"lines": [t[:60] for t, _, _ in cases[0][0]], "req": cases[0][1], "r": cases[0][2],
                                "impl": cases[0][3]}})
 
-        # ---- 2. through KexGex -----------------------------------------------
+        # ---- 2. through KexGex: 1..3 key exchanges served from one pack object ---------------------
         cases = []
-        for _ in range(200 * scale):
+        target = 200 * scale
+        while len(cases) < target:
             real = rng.random() < 0.8
             lines = gen_file(rng, real)
             texts = [t for t, _, _ in lines]
             content = layout_file(rng, texts)
             sizes0 = sorted({a[0] for a in (ref_parse(t) for t in texts) if a})
-            req = gen_request(rng, sizes0, real, u32=True)
-            old = rng.random() < 0.25
-            r = rng.randrange(0, 50)
-            out = check_gex(ctx, tmpdir, content, old, req, r, limits)
-            cases.append((lines, old, req, r, out, content))
-            ctx.count(("gex", texts, old, req, r), nontrivial=bool(sizes0), kind="gex-old" if old else
-                      ("gex-consistent" if req[0] <= req[1] <= req[2] and limits[0] <= req[1] <= limits[1]
-                       else "gex-rewritten"))
+            mp = load_pack(tmpdir, content)
+            history = []
+            for _k in range(rng.choice([1, 1, 2, 3])):
+                req = gen_request(rng, sizes0, real, u32=True)
+                old = rng.random() < 0.25
+                r = rng.randrange(0, 50)
+                out = check_gex(ctx, tmpdir, content, old, req, r, limits, mp=mp, history=history)
+                history.append((old, req, r))
+                cases.append((lines, old, req, r, out, content))
+                ctx.count(("gex", content, old, req, r, len(history)), nontrivial=bool(sizes0),
+                          kind=("gex-old" if old else
+                                ("gex-consistent" if req[0] <= req[1] <= req[2] and limits[0] <= req[1] <= limits[1]
+                                 else "gex-rewritten")) + ("" if len(history) == 1 else "-reused-pack"))
+            inl = [x for x in sizes0 if limits[0] <= x <= limits[1]]
+            if len(inl) >= 2 and rng.random() < 0.5:
+                sa, sb = rng.sample(inl, 2)
+                check_gex_interleaved(ctx, tmpdir, content, (limits[0], sa, sa), rng.randrange(50),
+                                      (limits[0], sb, sb), rng.randrange(50), limits)
+                ctx.count(("gex-interleaved", content, sa, sb), kind="gex-interleaved")
         bad = guarded_model(
             ctx, "run_gex", "(list fline * bool * (Z * Z * Z) * Z)",
             [("(%s, %s, %s, %s)" % (model_lines(l, c), coq(old), coq(tuple(req)), coq(r)), out)
@@ -483,13 +651,29 @@ def replay(ctx, rep):
     tmpdir = tempfile.mkdtemp(prefix="verif-c43-")
     try:
         from paramiko.kex_gex import KexGex
+        limits = (KexGex.min_bits, KexGex.max_bits)
         ctx.count(("replay", repr(case)))
         ctx.count(("replay2", repr(case)))
+        path = case.get("path")
+        if path == "direct" and "session" in case:
+            session = [(c, [(tuple(q), r) for q, r in gs]) for c, gs in case["session"]]
+            inter = case.get("interleave")
+            run_pack_session(ctx, tmpdir, session,
+                             inter=(tuple(inter[0]), inter[1], tuple(inter[2]), inter[3]) if inter else None)
+            return
+        if path == "gex-interleaved":
+            check_gex_interleaved(ctx, tmpdir, case["content"], tuple(case["reqA"]), case["rA"], tuple(case["reqB"]),
+                                  case["rB"], limits)
+            return
         content = case["content"] if "content" in case else "\n".join(case["lines"]) + "\n"
-        if case.get("path") == "direct":
+        if path == "direct":
             check_direct(ctx, tmpdir, content, tuple(case["req"]), case["r"])
         else:
-            check_gex(ctx, tmpdir, content, case.get("path") == "gex-old", tuple(case["req"]), case["r"],
-                      (KexGex.min_bits, KexGex.max_bits))
+            mp = load_pack(tmpdir, content)
+            hist = []
+            for o, q, rr in case.get("history", []):
+                check_gex(ctx, tmpdir, content, o, tuple(q), rr, limits, mp=mp, history=hist)
+                hist.append((o, tuple(q), rr))
+            check_gex(ctx, tmpdir, content, path == "gex-old", tuple(case["req"]), case["r"], limits, mp=mp, history=hist)
     finally:
         shutil.rmtree(tmpdir, ignore_errors=True)
